@@ -115,6 +115,7 @@ type Plan struct {
 	LazyUS     int64  `json:"lazy_us"`     // virtual latency of resolving one pool transaction
 	FinalizeUS int64  `json:"finalize_us"` // virtual latency of consensus Finalize
 	MaxBlobs   int    `json:"max_blobs,omitempty"`
+	BlobPool   bool   `json:"blob_pool,omitempty"` // run the blob pool too (its disk store makes a run ~0.8 s slower)
 	Extra      string `json:"extra,omitempty"`
 	Slots      []Slot `json:"slots"`
 }
@@ -123,7 +124,7 @@ var forks = []string{"cancun", "prague", "osaka", "amsterdam", "cancun>prague", 
 
 func hasPrague(f string) bool { return f != "cancun" }
 
-func genTx(r *simcore.Rand, fork string, baseFee uint64, gasLimit uint64) TxSpec {
+func genTx(r *simcore.Rand, fork string, blobs bool, baseFee uint64, gasLimit uint64) TxSpec {
 	t := TxSpec{From: r.Intn(nAccounts - 1)}
 	kinds := []string{"xfer", "revert", "burn", "count", "selfd", "create", "fwd", "deleg", "big"}
 	t.Kind = kinds[r.Pick(6, 2, 2, 4, 1, 1, 2, 2, 1)]
@@ -135,6 +136,10 @@ func genTx(r *simcore.Rand, fork string, baseFee uint64, gasLimit uint64) TxSpec
 	case 2:
 		t.Type = "dyn"
 	case 3:
+		if !blobs {
+			t.Type = "dyn"
+			break
+		}
 		t.Type = "blob"
 		t.Blobs = r.Pick(4, 2, 1, 1) + 1
 		if r.Bool(0.1) {
@@ -202,16 +207,16 @@ func genTx(r *simcore.Rand, fork string, baseFee uint64, gasLimit uint64) TxSpec
 	if t.Tip > t.FeeCap {
 		t.Tip = t.FeeCap
 	}
-	if r.Bool(0.07) {
+	if r.Bool(0.04) {
 		t.NonceGap = r.Range(1, 3)
 	}
 	return t
 }
 
-func genTxs(r *simcore.Rand, n int, fork string, gasLimit uint64) []TxSpec {
+func genTxs(r *simcore.Rand, n int, fork string, blobs bool, gasLimit uint64) []TxSpec {
 	var out []TxSpec
 	for i := 0; i < n; i++ {
-		out = append(out, genTx(r, fork, params.InitialBaseFee, gasLimit))
+		out = append(out, genTx(r, fork, blobs, params.InitialBaseFee, gasLimit))
 	}
 	return out
 }
@@ -220,6 +225,9 @@ func Gen(r *simcore.Rand, tier string) any {
 	p := &Plan{}
 	p.Fork = forks[r.Pick(3, 3, 3, 4, 1, 1, 2)]
 	p.Scheme = []string{"hash", "path"}[r.Intn(2)]
+	// blob transactions are only includable from Osaka on (the pool of this tree keeps
+	// version-1 sidecars only and the builder asks for version 0 before Osaka)
+	p.BlobPool = (strings.HasSuffix(p.Fork, "osaka") || strings.HasSuffix(p.Fork, "amsterdam")) && r.Bool(0.35)
 	p.GasLimit = []uint64{600_000, 2_000_000, 10_000_000, 30_000_000}[r.Pick(2, 3, 3, 2)]
 	p.GasCeil = []uint64{600_000, 2_000_000, 10_000_000, 36_000_000}[r.Pick(1, 2, 3, 3)]
 	p.RecommitUS = []int64{2_000, 50_000, 1_000_000, 2_000_000}[r.Pick(2, 2, 2, 3)]
@@ -235,7 +243,7 @@ func Gen(r *simcore.Rand, tier string) any {
 	nslots := r.Range(1, 4)
 	for s := 0; s < nslots; s++ {
 		sl := Slot{TimeDelta: uint64(r.Range(1, 20)), Recipient: r.Intn(nAccounts + 2), Random: byte(r.Intn(256)), BeaconRoot: byte(r.Intn(256))}
-		sl.Pre = genTxs(r, r.Pick(1, 2, 3, 2)*r.Range(1, 8), p.Fork, p.GasLimit)
+		sl.Pre = genTxs(r, r.Pick(1, 2, 3, 2)*r.Range(1, 8), p.Fork, p.BlobPool, p.GasLimit)
 		nw := r.Pick(3, 3, 2, 1)
 		for i := 0; i < nw; i++ {
 			w := Withdrawal{To: r.Intn(nAccounts), Amount: uint64(r.Intn(5000))}
@@ -268,10 +276,16 @@ func Gen(r *simcore.Rand, tier string) any {
 			case 5:
 				return rc*int64(r.Range(3, 6)) + 1 // after several rebuilds
 			default:
+				if rc < 1_000_000 {
+					return rc*int64(r.Range(6, 30)) + 1 // many rebuilds
+				}
 				return 12_000_000 + int64(r.Range(1, 1000)) // after the payload's life time
 			}
 		}
 		sl.ResolveAt = instants()
+		if sl.ResolveAt > 40*rc && rc < 1_000_000 {
+			sl.ResolveAt = 40*rc + 1 // bound the number of rebuilds per payload
+		}
 		sl.ResolveFull = r.Bool(0.25)
 		if r.Bool(0.25) {
 			sl.LateAt = int64(r.Range(1, 3)) * rc
@@ -285,7 +299,7 @@ func Gen(r *simcore.Rand, tier string) any {
 			switch r.Pick(5, 2, 2, 1, 1) {
 			case 0:
 				ev.Kind = "add"
-				ev.Txs = genTxs(r, r.Range(1, 8), p.Fork, p.GasLimit)
+				ev.Txs = genTxs(r, r.Range(1, 8), p.Fork, p.BlobPool, p.GasLimit)
 			case 1:
 				ev.Kind = "replace"
 				ev.N = uint64(r.Range(1, 3))
@@ -779,19 +793,19 @@ func (w *world) makeTx(t TxSpec, nonce uint64) (*types.Transaction, error) {
 	case "dyn":
 		inner = &types.DynamicFeeTx{ChainID: w.cfg.ChainID, Nonce: nonce, To: &to, Gas: t.Gas, GasFeeCap: feeCap, GasTipCap: tip, Value: value}
 	case "blob":
-		version := types.BlobSidecarVersion0
-		head := w.builder.CurrentBlock()
-		if w.cfg.IsOsaka(head.Number, head.Time+1) {
-			version = types.BlobSidecarVersion1
+		if !w.p.BlobPool {
+			inner = &types.DynamicFeeTx{ChainID: w.cfg.ChainID, Nonce: nonce, To: &to, Gas: t.Gas, GasFeeCap: feeCap, GasTipCap: tip, Value: value}
+			break
 		}
-		sc := sidecar(version, t.Blobs, int(nonce))
+		// the pool of this tree only takes cell-proof (version 1) sidecars, whatever the fork
+		sc := sidecar(types.BlobSidecarVersion1, t.Blobs, int(nonce))
 		inner = &types.BlobTx{ChainID: uint256.MustFromBig(w.cfg.ChainID), Nonce: nonce, To: to, Gas: t.Gas,
 			GasFeeCap: uint256.MustFromBig(feeCap), GasTipCap: uint256.MustFromBig(tip), Value: uint256.MustFromBig(value),
 			BlobFeeCap: uint256.NewInt(t.BlobFee), BlobHashes: sc.BlobHashes(), Sidecar: sc}
 	case "setcode":
 		ak := keys[t.Auth%nAccounts]
 		aaddr := addrs[t.Auth%nAccounts]
-		anonce := w.pool.Nonce(aaddr)
+		anonce := w.pool.PoolNonce(aaddr)
 		if t.Auth%nAccounts == t.From%nAccounts {
 			anonce = nonce + 1
 		}
@@ -814,21 +828,33 @@ func (w *world) makeTx(t TxSpec, nonce uint64) (*types.Transaction, error) {
 func (w *world) addTxs(specs []TxSpec) {
 	for _, t := range specs {
 		from := addrs[t.From%nAccounts]
-		nonce := w.pool.Nonce(from) + uint64(t.NonceGap)
+		nonce := w.pool.PoolNonce(from) + uint64(t.NonceGap)
 		tx, err := w.makeTx(t, nonce)
 		if err != nil {
 			simcore.Harnessf("minersim: making tx %+v: %v", t, err)
 		}
 		errs := w.pool.Add([]*types.Transaction{tx}, true)
+		// the builder breaks fee ties by first-seen time: give every transaction its own
+		// virtual instant (as on a real node), else the order follows Go's map iteration
+		time.Sleep(time.Microsecond)
 		if errs[0] != nil {
 			w.probe("pool-rejected")
 			if trace {
-				fmt.Println("POOL reject", t.Type, t.Kind, errs[0])
+				p, q := w.pool.ContentFrom(from)
+				fmt.Println("POOL reject", t.Type, t.Kind, errs[0], "from", t.From, "nonce", nonce, "gap", t.NonceGap, "pending", len(p), "queued", len(q), "statenonce", w.stateNonce(from))
 			}
 		} else {
 			w.probe("pool-accepted-" + t.Type)
 		}
 	}
+}
+
+func (w *world) stateNonce(a common.Address) uint64 {
+	st, err := w.builder.State()
+	if err != nil {
+		return 0
+	}
+	return st.GetNonce(a)
 }
 
 // replace bumps the fees of the newest pending transaction of up to n accounts.
@@ -876,6 +902,7 @@ func (w *world) replace(n uint64) {
 		if errs := w.pool.Add([]*types.Transaction{tx}, true); errs[0] == nil {
 			w.probe("pool-replaced")
 		}
+		time.Sleep(time.Microsecond)
 		n--
 	}
 }
@@ -1204,11 +1231,14 @@ func Run(t *testing.T, pl any) *simcore.Result {
 		lcfg.Journal = ""
 		lcfg.NoLocals = true
 		w.legacy = legacypool.New(lcfg, w.builder)
-		bcfg := blobpool.DefaultConfig
-		bcfg.Datadir = scratch
-		bpool := blobpool.New(bcfg, w.builder, w.legacy.HasPendingAuth)
 		lat := time.Duration(p.LazyUS) * time.Microsecond
-		pool, err := txpool.New(lcfg.PriceLimit, w.builder, []txpool.SubPool{&latPool{SubPool: w.legacy, d: lat, w: w}, &latPool{SubPool: bpool, d: lat, w: w}})
+		subpools := []txpool.SubPool{&latPool{SubPool: w.legacy, d: lat, w: w}}
+		if p.BlobPool {
+			bcfg := blobpool.DefaultConfig
+			bcfg.Datadir = scratch
+			subpools = append(subpools, &latPool{SubPool: blobpool.New(bcfg, w.builder, w.legacy.HasPendingAuth), d: lat, w: w})
+		}
+		pool, err := txpool.New(lcfg.PriceLimit, w.builder, subpools)
 		if err != nil {
 			simcore.Harnessf("txpool.New: %v", err)
 		}
